@@ -17,6 +17,7 @@ import (
 	"sort"
 	"strings"
 	"sync"
+	"syscall"
 	"time"
 )
 
@@ -139,6 +140,15 @@ func spawnRun(spec batchSpec, tier string, seed uint64, planFile string, keepLog
 		cmd.Dir = spec.EnvV.Dir
 	}
 	cmd.Env = env
+	// the worker and whatever it spawns (reference processes, the CLI) form one process group,
+	// so that the watchdog leaves nothing behind
+	cmd.SysProcAttr = &syscall.SysProcAttr{Setpgid: true}
+	cmd.Cancel = func() error {
+		if cmd.Process != nil {
+			return syscall.Kill(-cmd.Process.Pid, syscall.SIGKILL)
+		}
+		return nil
+	}
 	var out, errb bytes.Buffer
 	cmd.Stdout, cmd.Stderr = &out, &errb
 	err := cmd.Run()
